@@ -103,6 +103,8 @@ CATALOGUE = [("valid", "aé€\U0001F600z".encode()), ("valid", "\U0010FFFF￿".
              ("interrupted", b"\xc3A\xa9"), ("interrupted", b"\xe2\x82A\xac"), ("interrupted", b"\xf0\x9f\x98\n\x80"), ("interrupted", b"\xe2A\x82\xac")]
 
 
+STUB = ["optional accelerator package `wsaccel` (sim/stubs/wsaccel follows the documented Utf8Validator.validate contract; only in the scenarios marked accel)"]
+
 def plan(tier, seed):
     items = [{"kind": "catalogue", "exhaustive": "every 2-fragment split of every catalogue payload x validation on/off x text/close"}]
     if tier == "quick":
@@ -122,10 +124,26 @@ def plan(tier, seed):
     per = 500 if tier == "quick" else 4000
     for s in range(0, n, per):
         items.append({"kind": "rand", "start": s, "count": per})
+    # the same with the optional accelerator package present (websocket/_utils.py then validates with
+    # wsaccel.utf8validator.Utf8Validator instead of its own table): stand-in sim/stubs/wsaccel
+    ex = "with the wsaccel stand-in: catalogue + validator vs strict decoder for all byte strings of length <=2"
+    items.append({"kind": "catalogue", "accel": True, "exhaustive": ex})
+    items.append({"kind": "sweep", "len": 1, "lo": 0, "hi": 256, "accel": True, "exhaustive": ex})
+    for lo in range(0, 256, 64):
+        items.append({"kind": "sweep", "len": 2, "lo": lo, "hi": lo + 64, "accel": True, "exhaustive": ex})
+    if tier != "quick":
+        for lo in range(0xE0, 0xF5):
+            items.append({"kind": "sweep", "len": 3 if lo < 0xF0 else 4, "lo": lo, "hi": lo + 1, "accel": True})
+    for s in range(0, n // 8, per):
+        items.append({"kind": "rand", "start": n + s, "count": per, "accel": True})
     return items
 
 
 def expand(item, seed):
+    if item.get("accel"):
+        for sc in expand({k_: v for k_, v in item.items() if k_ != "accel"}, seed):
+            yield dict(sc, accel=True)
+        return
     k = item["kind"]
     if k == "catalogue":
         for cls, p in CATALOGUE:
@@ -171,6 +189,8 @@ def gen(rng):
     if kind == "text" and rng.random() < 0.15:
         sc["fire_cont"] = True
         sc["api"] = "recv_data"
+        if not skip and not R.utf8_ok(p) and rng.random() < 0.5:
+            sc["then"] = rng.choice(("text_ascii", "text_cont_byte", "binary", "text_utf8"))
         return sc
     if kind == "close":
         sc["code"] = rng.choice((1000, 1000, 1001, 1011, 3000, 3999, 4000, 4999))
@@ -238,6 +258,20 @@ def _is_truncation(b):
 
 
 def run(sc, choices=None):
+    seams.set_accel(bool(sc.get("accel")))
+    try:
+        res = _run(sc, choices)
+    finally:
+        seams.set_accel(False)
+    if sc.get("accel"):
+        for v in res.violations:
+            v["ctx"] += "/wsaccel"
+        res.probes["with_wsaccel_stand_in"] = 1
+        res.sig = "A" + (res.sig or "")
+    return res
+
+
+def _run(sc, choices=None):
     res = Result()
     if sc.get("kind") == "sweep":
         return _sweep(sc, res)
@@ -280,7 +314,7 @@ def run(sc, choices=None):
     if skip and api == "recv" and kind == "text":
         raise InvalidScenario("recv() with validation off is not pinned down for ill-formed text")
     fire = bool(sc.get("fire_cont"))
-    if fire and (kind != "text" or api != "recv_data" or then is not None):
+    if fire and (kind != "text" or api != "recv_data" or (then is not None and R.utf8_ok(p))):
         raise InvalidScenario("per-fragment delivery is judged for text messages read with recv_data()")
     cfg = {"api": api, "timeout": 4 * S, "end": "eof", "skip_utf8": skip, "sizes": list(sc.get("sizes", ())),
            "max_calls": len(frames) + 3, "fire_cont": fire}
@@ -295,7 +329,29 @@ def run(sc, choices=None):
     trunc = (not ok) and _is_truncation(p)
     pcls = "well_formed" if ok else ("cut_short_at_end" if trunc else "ill_formed")
     ctx = f"{kind}/{'validation_off' if skip else 'validation_on'}/{pcls}"
-    if fire:
+    if fire and then is not None:
+        # per-fragment delivery, the caller catches the exception and keeps receiving: what is left of the refused message
+        # must not be handed over as if nothing had happened, and the message behind it is judged on its own
+        ctx += "/per_fragment"
+        seen_exc = False
+        tail = []
+        after = []
+        for o in out["obs"]:
+            if o[0] == "exc" and o[1] in ("WebSocketPayloadException", "WebSocketProtocolException"):
+                seen_exc = True
+            elif o[0] == "ret" and o[1][0] == "t" and seen_exc:
+                if o[1][1][1] == 0:
+                    tail.append(bytes.fromhex(o[1][2][1]))
+                else:
+                    after.append((o[1][1][1], bytes.fromhex(o[1][2][1])))
+        want = [] if then == "text_cont_byte" else [follow]
+        if not seen_exc:
+            res.violate("illegal_input_accepted", ctx, f"ill-formed text: no receive call raised ({out['obs'][:6]})")
+        elif tail:
+            res.violate("rejected_message_leaks_into_next", ctx, f"after the exception the rest of the refused message was handed over: {tail[:3]}")
+        elif after != want:
+            res.violate("rejected_message_leaks_into_next", ctx, f"message behind the refused one: got {after[:3]}, expected {want} (following message: {then})")
+    elif fire:
         # per-fragment delivery (fire_cont_frame=True): fragments are handed over before the message is complete, so
         # "nothing is delivered" cannot be demanded of the earlier fragments; what can: a well-formed message passes with
         # exactly its bytes, an ill-formed one makes a receive call raise before its last fragment is handed over -
